@@ -27,6 +27,7 @@ package types
 //@ spec signingFee(o OtherState) sdk.Coins uninterpreted
 //@ func (k BandtssKeeper) GetSigningFee
 //@ trusted
+//@ ensures err == nil ==> result == signingFee(Other)
 //@ func (k BandtssKeeper) CreateTunnelSigningRequest
 //@ trusted
 //@ modifies Bank, Other
@@ -37,5 +38,14 @@ package types
 //@ trusted
 
 // Route of a tunnel (protobuf Any unpacking is external).
+//@ spec routeOf(t Tunnel) RouteI uninterpreted
 //@ func (t Tunnel) GetRouteValue
 //@ trusted
+//@ ensures err == nil ==> result == routeOf(t)
+
+// UpdatePrices merges the new prices into the remembered list by signal id (map-indexed loops: body not verified)
+//@ spec mergedPrices(oldp []feedstypes.Price, newp []feedstypes.Price) []feedstypes.Price uninterpreted
+//@ func (l *LatestPrices) UpdatePrices
+//@ trusted
+//@ modifies l
+//@ ensures l.TunnelID == old(l.TunnelID) && l.LastInterval == old(l.LastInterval) && l.Prices == mergedPrices(old(l.Prices), newPrices)
